@@ -13,7 +13,9 @@ RULE = ("Hypothesis draws (store algorithm, content with boundary-biased size, k
         "share / re-store / delete / invalidate the same content, interleaved with retrieves). "
         "Oracle: cid == hashlib digest of the whole content under the store algorithm, obj_size == "
         "len, every retrieve_object(pid) before delete_object(pid) returns exactly the bytes, a "
-        "caller's stream is open and at its original offset afterwards. Non-trivial = not (path "
+        "caller's stream is open and at its original offset afterwards - also (enumerated family) after a "
+        "store_object that FAILED with an injected one-off EIO at each of its fault sites, for each stream kind x "
+        "offset x size. Non-trivial = not (path "
         "string input, offset 0, size off every buffer boundary, empty history); distinct key = "
         "(kind, algorithm, size class, offset class, shape of the history).")
 ASSUMPTIONS = ["contents up to 5*8192+1 bytes", "single thread", "local POSIX file system (tmpfs)"]
@@ -59,6 +61,53 @@ def strategy(tier):
     return _case(tier)
 
 
+def enumerate_cases(tier):
+    """Stream left open at its offset also when the call FAILS part-way: every fault site (one-off EIO) of
+    store_object(pid, stream) for each stream kind x offset x content size."""
+    sizes = [{"hex": "73686f7274"}, {"pat": "ab", "n": 8192 + 1}] + ([{"pat": "cd", "n": 3 * 8192}] if tier == "thorough" else [])
+    for kind in ("file", "bytesio", "bufreader"):
+        for content in sizes:
+            for offset in (0, 3):
+                yield {"family": "stream-fault", "cfg": {"algo": "SHA-256", "depth": 2, "width": 2}, "contents": [content],
+                       "kind": kind, "offset": offset}
+
+
+def _stream_fault_case(case, ctx):
+    import io
+    import os
+    from .. import fault, fsi
+    fsi.install()
+    run = seq.Run(dict(case, ops=[]), ctx)
+    data = run.contents[0]
+    ctx.evaluations -= 1
+    k = 0
+    while k < 200:
+        d = os.path.join(run.work, f"sf{k}")
+        store = common.make_store(d, run.cfg)
+        arg, stream = run.data_arg(0, case["kind"], case["offset"])
+        pos = stream.tell()
+        inj = fault.Injector(d, k, "EIO", False)
+        with fsi.active(d, inj):
+            out = common.call(store.store_object, TARGET, arg)
+        if inj.fired is None:
+            run.close()
+            break
+        ctx.count()
+        what = f"a store_object({case['kind']} stream at offset {pos}, {len(data)} bytes) that failed with {inj.describe()}"
+        if stream.closed:
+            ctx.violation("stream-closed", f"caller's stream was closed by {what}", {"what": "failed store_object"})
+        elif stream.tell() != pos:
+            ctx.violation("stream-offset", f"caller's stream is at {stream.tell()} after {what}; it was at {pos}",
+                          {"what": "failed store_object"})
+        ctx.nontrivial(["stream-fault", case["kind"], case["offset"], len(data), k, "ok" if is_ok(out) else "raised"])
+        run.close()
+        common.rmtree(d)
+        k += 1
+    ctx.classify("stream-fault-scenarios")
+    ctx.sample({"family": "stream left alone by a failing call", "kind": case["kind"], "offset": case["offset"],
+                "len": len(data), "fault_sites": k})
+
+
 def _check_stream(ctx, r, what):
     s = r.extra.get("stream")
     if s is None:
@@ -71,6 +120,8 @@ def _check_stream(ctx, r, what):
 
 
 def run_case(case, ctx):
+    if case.get("family") == "stream-fault":
+        return _stream_fault_case(case, ctx)
     run = seq.Run(case, ctx)
     data = run.contents[0]
     cfg = run.cfg
